@@ -63,7 +63,7 @@ void* w_vm_new(int ops, long max_runtime_ms, int enable_classname_check)
     conf.disable_sleep = false;
     conf.enable_classname_check = enable_classname_check != 0;
     conf.disable_networking = true;
-    conf.print_context_work_to_log_on_exit = true;
+    conf.print_context_work_to_log_on_exit = false;
     v->rt = new runtime(*v->logger, conf);
     v->logger->owner = v->rt;
     v->rt->fileio(std::make_unique<sqf::fileio::impl_default>(*v->logger));
